@@ -237,6 +237,10 @@ func c16ModulusLimbs(r *Report, p *Prog, prefix string, m *big.Int) {
 		if fn == nil {
 			continue
 		}
+		if to := fiatDelegates(fn, prefix, name); to != "" {
+			r.Ok("MODULUS-LIMBS", "fiat."+prefix+name+" conditional add-back", p.Pos(fn.Pos()), "delegates to "+prefix+to+", whose limbs are checked")
+			continue
+		}
 		var adds []ssa.Value
 		for _, b := range fn.Blocks {
 			for _, in := range b.Instrs {
